@@ -317,7 +317,7 @@ Definition do_stream (st : state) (command : string) (o : orc) : res (state * li
       | CNone => Ok (st, [RErr ECollectNone])
       | _ =>
           match o_stream o with
-          | StreamOk one_pass ws we np nn ne =>
+          | StreamOk one_pass ws we np nn ne matches =>
               (* StreamContext::from took an id from the global counter *)
               let id := st_next_id st in
               let st1 := bump st in
